@@ -236,7 +236,9 @@ func judgeC16(c c16Case) (v core.Verdict) {
 	editAfterLoad, faultRepairLookup := false, false
 	faulted := map[int]bool{}
 	v.Label(fmt.Sprintf("dev:%v", c.Dev), fmt.Sprintf("reccache:%v", c.RecCache), fmt.Sprintf("exts:%d", len(c.Exts)))
-	hist := func(i int) string { return fmt.Sprintf("config dev=%v recCache=%v exts=%q; history %+v", c.Dev, c.RecCache, c.Exts, c.Ops[:i+1]) }
+	hist := func(i int) string {
+		return fmt.Sprintf("config dev=%v recCache=%v exts=%q; history %+v", c.Dev, c.RecCache, c.Exts, c.Ops[:i+1])
+	}
 	loaderEvents := func() (evs []traceEv) {
 		for _, e := range trace {
 			if e.Op == "Exists" || e.Op == "Open" {
